@@ -10,11 +10,10 @@ RULE = ("op `pcap <hex file> <script>`: the bytes are written to a transient fil
         "(null or an error object on a damaged file), read-back of the written file = the packets handed out; cases = random files (0-50 records, sizes around "
         "0/1/4095/4096/4097/8191/8192/8193, both magics, several snaplens incl. caplen == snaplen), truncation at every byte offset (small files) / random offsets "
         "(large), header corruption, random interleavings; non-trivial = the file opened and at least one packet was handed out")
-ASSUMPTIONS = ["read_exact / BufReader / BufWriter of std behave as a cursor over the file's bytes (DESIGN §7)",
-               "pcap_read_all on a file whose next record header has caplen > snaplen may report the error object instead of the records before it "
-               "(the statement's 'those k records and then null or an error object' is read per call: see NOTES)"]
+ASSUMPTIONS = ["read_exact / BufReader / BufWriter of std behave as a cursor over the file's bytes (DESIGN §7)"]
 NOTES = ["spec-reading decision: after the first null/error on a damaged file, for a negative count, and for the exact bytes of the written file the oracle is silent",
-         "spec-reading decision: pcap_read_all reaching a corrupt record header (caplen > snaplen) may return either the complete records before it or the error object"]
+         "pcap_read_all reaching a corrupt record header (caplen > snaplen) must deliver the complete records before it; the error object (or null) comes with the "
+         "next read (the code after the /repo fix 'pcap_read_all keeps the records read before a malformed one'; before it the records were dropped)"]
 HARNESS_TIMEOUT = 300
 DRIVER_TIMEOUT = 600
 
@@ -95,6 +94,16 @@ def nontrivial(c):
     return c.impl.startswith("P;") and "pkt:" in c.impl
 
 
+def readback_finding(want, got):
+    """the recorded finding: the written file carries snaplen 65535, so reading it back stops at the first packet longer than that —
+    the error object when it is the first one, else exactly the packets before it"""
+    pk = [p for p in want[2:-1].split(",") if p.startswith("pkt:")]
+    big = [j for j, p in enumerate(pk) if int(p.split(":")[3]) > 65535]
+    if not big:
+        return False
+    return got == ("E:io" if big[0] == 0 else "a[" + ",".join(pk[:big[0]]) + "]")
+
+
 def classify(c):
     if not c.spec.startswith("steps "):
         return "spec"
@@ -111,7 +120,7 @@ def classify(c):
     kinds = set()
     for i in bad:
         tag = tags[i] if i < len(tags) else "?"
-        if tag == "R" and got[i] == "E:io" and c.model == c.impl and any(int(p.split(":")[3]) > 65535 for p in want[i][2:-1].split(",") if p.startswith("pkt:")):
+        if tag == "R" and c.model == c.impl and readback_finding(want[i], got[i]):
             kinds.add("readback-caplen>65535")
         else:
             kinds.add("step:" + tag[0])
@@ -188,7 +197,7 @@ def cases(ctx):
             m = bytearray(b); m[o + rng.randrange(0, 8)] ^= 0xff; muts.append(bytes(m))     # timestamps
             m = bytearray(b); m[o + 12 + rng.randrange(0, 4)] ^= 0xff; muts.append(bytes(m))  # wirelen
         for m in muts:
-            for script in ("A", "N,N,N,N,N,N,N,N", rand_script(rng, n)):
+            for script in ("A", "A,N,A", "A1,A,N", "N,A,A0,A", "N,N,N,N,N,N,N,N", rand_script(rng, n)):
                 add(m, script, "corrupt-header")
     # ---- large files: record sizes around the buffer boundaries, random truncation offsets
     for k in range(ctx.scale(14, 120)):
